@@ -85,7 +85,8 @@ def _transpose_sparse_matrix_on_disk_v2(
         n_orig_indptr = src[indptr_tag].shape[0]
 
     gb_per_process = 0.8 * max_gb / n_processors
-    indices_chunk_size = np.ceil(indices_max / n_processors).astype(int)
+    indices_chunk_size = max(
+        1, np.ceil(indices_max / n_processors).astype(int))
 
     path_list = []
     process_list = []
@@ -146,11 +147,15 @@ def _transpose_sparse_matrix_on_disk_v2(
     t0 = time.time()
     indptr_idx = 0
     indices_idx = 0
+    if indices_size > 0:
+        chunks = (min(indices_size, 1000000),)
+    else:
+        chunks = None
     with h5py.File(output_path, output_mode) as dst:
         indices = dst.create_dataset(
             'indices',
             shape=(indices_size,),
-            chunks=(min(indices_size, 1000000),),
+            chunks=chunks,
             dtype=indices_dtype)
         indptr = dst.create_dataset(
             'indptr',
@@ -161,7 +166,7 @@ def _transpose_sparse_matrix_on_disk_v2(
             data = dst.create_dataset(
                 'data',
                 shape=(indices_size,),
-                chunks=(min(indptr_size, 1000000),),
+                chunks=chunks,
                 dtype=data_dtype)
 
         chunk_size = 1000000
